@@ -130,10 +130,14 @@ class C16(Check):
                                                      ("dict" if has(spec, ("dict",)) else "other"))
                 ftypes = sorted({t for t in ("set", "frozenset") if has(spec, (t,))})
                 sig = where + ":" + "+".join(ftypes)
+                if len({r[i].split("|")[0] for r in results}) == 1:
+                    # the nodes agree on the hash used as cache key but not on the hash the
+                    # value is recorded under
+                    sig += "/recorded-hash-only"
                 if sig not in {v.signature for v in out.violations}:
                     out.violate("C16.nodes_agree", sig,
                                 {"value_spec": spec, "hashseeds": seeds,
-                                 "hashes": [r[i][:10] for r in results]})
+                                 "hashes": [[h[:10] for h in r[i].split("|")] for r in results]})
                 out.probe("values_disagreeing")
         out.steps = len(specs)
         out.key = hashlib.sha1(json.dumps(specs, sort_keys=True).encode()).hexdigest()[:16]
